@@ -645,13 +645,24 @@ class Exec:
         if not mod or not qn or '.' not in qn:
             return None
         from . import source
-        try:
-            fd, _ = source.find(mod, qn.rsplit('.', 1)[0] + '.' + name)
-        except ContractError:
-            return None
-        if not isinstance(fd, ast.FunctionDef):
-            return None
-        return BoundUserFn(UserFn(fd, self.globs, nested=False), selfobj)
+        cls = qn.rsplit('.', 1)[0]
+        seen = set()
+        while cls and cls not in seen:
+            seen.add(cls)
+            try:
+                fd, _ = source.find(mod, cls + '.' + name)
+                if isinstance(fd, ast.FunctionDef):
+                    return BoundUserFn(UserFn(fd, self.globs, nested=False, label=cls + '.' + name), selfobj)
+            except ContractError:
+                pass
+            # not defined in this class: continue with its first base class if that is defined in the same module
+            try:
+                cd, _ = source.find(mod, cls)
+            except ContractError:
+                return None
+            bases = [b.id for b in getattr(cd, 'bases', []) if isinstance(b, ast.Name)]
+            cls = bases[0] if bases else None
+        return None
 
     def user_function(self, f):
         """a function of the package under verification that has no contract: its current source is inlined at the call site
